@@ -77,6 +77,7 @@ def outcome(res, arn):
         out = re.sub(r"\(entered at the event id #\d+\)", "(entered at the event id #N)", out)
         out = re.sub(r"timeout value of \d+ seconds", "timeout value of N seconds", out)
         out = REQID.sub('"RequestId": "#"', out)     # (a correlation id: generated, differs from run to run)
+        out = strip_cids(res, out)
     return (d["status"], out, d.get("error"))
 
 
@@ -147,12 +148,47 @@ def run_crash(scn, seed, point, downtime):
                     do_crash()
                     raise SimCrash()
             sim.broker.fault_hook = hook
+        sim.broker.publish_hooks.append(reentry_counter(state))
     mon = NotifyMonitor("C04", check_shape=False)
     ttl = scn["config"].get("execution_ttl", 120)
     bm = BrokerMonitor(drain=False, carrier=False)
     res = run_scenario(scn, seed, monitors=[mon, bm], before_run=before, horizon=ttl + 900, settle=ttl + 70,
                        settle_if=lambda r: unfinished(r, mon))
+    res.info["map_reentered_twice"] = bool(state.get("reentered_twice"))
     return res, state, mon
+
+
+def reentry_counter(state):
+    """Publish hook: counts the events that re-enter a Map state for its next MaxConcurrency batch (the last Branch
+    frame is {ID, Range}); the same (state, fan-out id, range) published twice is the signature of the recorded
+    'map-batch-re-entered' situation, whatever is requested again as a consequence (also the states after the Map)."""
+    seen = state.setdefault("reentries", {})
+
+    def on_publish(ch, exchange, routing_key, body, props, queues, uid):
+        if exchange != "" or not str(routing_key).startswith("asl_workflow_events"):
+            return
+        try:
+            st = json.loads(body)["context"]["State"]
+            fr = st["Branch"][-1]
+        except (ValueError, KeyError, TypeError, IndexError):
+            return
+        if isinstance(fr, dict) and "Range" in fr and "Index" not in fr:
+            k = (st.get("Name"), fr.get("ID"), fr.get("Range"))
+            seen[k] = seen.get(k, 0) + 1
+            if seen[k] > 1:
+                state["reentered_twice"] = True
+    return on_publish
+
+
+def strip_cids(res, text):
+    """Correlation ids are generated (they differ from run to run) and the long-form invoke hands them to the program as
+    SdkResponseMetadata.RequestId, from where a ResultSelector may copy them anywhere: every id under which a request
+    was made in this run is replaced wherever it appears."""
+    for r in res.world.workers.requests:
+        cid = r.get("cid")
+        if cid and cid in text:
+            text = text.replace(cid, "#")
+    return text
 
 
 def request_counts(res):
@@ -160,8 +196,8 @@ def request_counts(res):
     out = {}
     for r in res.world.workers.requests:
         # history-dependent text (event ids start again at 1 after a restart with the in-memory history) removed
-        k = (r["fn"], REQID.sub('"RequestId": "#"', re.sub(r"\(entered at the event id #\d+\)", "(entered at the event id #N)",
-                                                            json.dumps(r["payload"], sort_keys=True))))
+        k = (r["fn"], strip_cids(res, REQID.sub('"RequestId": "#"', re.sub(
+            r"\(entered at the event id #\d+\)", "(entered at the event id #N)", json.dumps(r["payload"], sort_keys=True)))))
         out[k] = out.get(k, 0) + 1
     return out
 
@@ -190,7 +226,8 @@ def requested_again(res, ref_reqs, scn, ctx, witness):
     if not extra:
         return []
     (fn, payload), n = extra[0]
-    if all(in_batched_map(m["definition"], k[0]) for m in scn["machines"].values() for k, _ in extra):
+    if res.info.get("map_reentered_twice") or \
+            all(in_batched_map(m["definition"], k[0]) for m in scn["machines"].values() for k, _ in extra):
         witness = "idle:map-batch-re-entered"
     return [{"property": PROP, "rule": "task-requested-again", "witness": witness,
              "detail": "%s (engine idle): %s(%s) was requested %d more time(s) than in the crash-free run; %d "
@@ -530,11 +567,13 @@ def run_multi_case(case, seed):
                 except (ValueError, KeyError, TypeError):
                     pass
         sim.broker.publish_hooks.append(on_publish)
+        sim.broker.publish_hooks.append(reentry_counter(state))
     mon = NotifyMonitor("C04", check_shape=False)
     ttl = scn["config"].get("execution_ttl", 120)
     bm = BrokerMonitor(drain=False, carrier=False)
     res = run_scenario(scn, seed, monitors=[mon, bm], before_run=before, horizon=ttl + 900 + 10 * len(plan),
                        settle=ttl + 70, settle_if=lambda r: unfinished(r, mon))
+    res.info["map_reentered_twice"] = bool(state.get("reentered_twice"))
     return res, state, mon
 
 
